@@ -29,7 +29,7 @@ def main(argv):
     spec = registry.PROPS[prop]
     # stale replay files of earlier runs of this property would only confuse
     import glob
-    for f in glob.glob(os.path.join(xv.VERIF, "evidence", "replays", prop + "-*.json")):
+    for f in glob.glob(os.path.join(xv.EVIDENCE_DIR, "replays", prop + "-*.json")):
         if not a.only:
             try:
                 os.unlink(f)
